@@ -155,6 +155,17 @@ PROPS = {
                       "go-ethereum abi.Arguments.Pack is modelled by Model/Abi.lean (validated by TestABI correspondence)"],
         assumptions=["message-id theorems are stated for fewer than 2^64 enqueue operations (the counter is a uint64)"],
     ),
+    "C07": dict(
+        lean_modules=["PalomaModel.Props.C07"],
+        harness_test="TestC07",
+        n_quick=300, n_thorough=3000, thorough_seeds=6, timeout_quick=900,
+        spec_ops=[],
+        rule="keeper layer on the full app with an active EVM chain: messages of every action type put in the queue, estimate election, real validator signatures, the real expected call data (compass ABI) wrapped in a real ethtypes.Transaction + receipt, "
+             "evidence from a quorum through CheckAndProcessAttestedMessages (one scenario through real MsgAddEvidence txs and the real end blocker); corruptions: single/multi-field edits of the call data, wrong signature-prefix length, failed receipt, "
+             "re-submission of a used tx, evidence before estimate election; distinct = distinct op text; non-trivial = an attestation attempt reached the action attester",
+        trusted_base=["Keccak-256 collision freeness is a pointwise hypothesis; RLP (de)serialisation of tx/receipt by go-ethereum is used as is on both sides", SDK_TRUST],
+        assumptions=["VerifyAgainstTX reads only the call data (destination / chain id / sender of the remote tx are not part of the property)"],
+    ),
 }
 
 LEVEL_TEXT = ("Lean 4 theorems (all inputs / histories / fault points, no bounds) about an executable model of the code; the model is tied to the Go code on "
